@@ -399,6 +399,7 @@ def execute(program, ch: Chooser) -> Result:  # noqa: C901
                     )
                 )
         outcome = f"scope/{'delivered@' + phase[0] if phase else 'no-cancel'}/{obs['driver']}"
+        viols.extend(r.library_errors())
         return Result(outcome, delivered and phase is not None and phase[0] in ("entering", "body", "exiting"), viols[:4], obs)
     finally:
         r.close()
